@@ -359,6 +359,15 @@ theorem summary_lists_partial (cfg : Cfg) (ucs : Nat) (qlow : Rat) (sh : Shape) 
       have hk2 : k < sh.length := hfix ▸ hin
       simp [attributed, permuteRow, hk, perColumn, hfix, hk2]
 
+/-- the attached model lists the parameters as the fitted one did: nothing is reordered, every entry of
+the stored lists is attributed to its own parameter (`summary_lists_partial` with `idx[k] = k`) -/
+theorem reorder_same_order (sh : Shape) : reorder (List.range sh.length) sh = sh := by
+  unfold reorder
+  apply List.ext_getElem
+  · simp
+  · intro k h1 h2
+    simp [List.getD, h2]
+
 /-- two parameters, three converged samples -/
 def twoParams : Shape :=
   [{ paths := [[['g'], ['a']]], names := [['g', '.', 'a']], uniq := [['g'], ['a']] },
@@ -383,6 +392,22 @@ example : estimates {} 100 (1 / 10) twoParams threeSamples =
 
 example : estimatesMCMC {} (3 / 10) twoParams threeSamples =
     some [some ⟨7, 5, 39 / 5⟩, some ⟨70, 50, 78⟩] := by decide +kernel
+
+-- non-vacuity: the hypotheses of `csv_estimates`, `estimates_follow_parameters`, `summary_lists_partial`,
+-- `quantile_order_free` are met by concrete inputs, and the conclusions are not trivially `none = none`
+example : mapOpt (paramList {} twoParams) threeSamples = some [[7, 70], [2, 20], [9, 90]] ∧
+    (∀ i ∈ [1, 0], i < twoParams.length) ∧ Route {} twoParams := by decide +kernel
+example : (saveCsv {} ratOps twoParams [0, 2] id threeSamples).isSome = true := by decide +kernel
+example : ((saveCsv {} ratOps twoParams [0, 2] id threeSamples).bind (loadCsv id)).bind (estimates {} 100 (1 / 10) twoParams) =
+    some [some ⟨6, 14 / 5, 127 / 15⟩, some ⟨60, 28, 254 / 3⟩] := by decide +kernel
+example : estimates {} 100 (1 / 10) (reorder [1, 0] twoParams) threeSamples =
+    some [some ⟨60, 28, 254 / 3⟩, some ⟨6, 14 / 5, 127 / 15⟩] := by decide +kernel
+example : [((7 : Rat), (3 / 10 : Rat)), (2, 5 / 10), (9, 2 / 10)].Perm [(9, 2 / 10), (7, 3 / 10), (2, 5 / 10)] ∧
+    ([((7 : Rat), (3 / 10 : Rat)), (2, 5 / 10), (9, 2 / 10)].map (·.1)).Nodup ∧
+    wquantile (1 / 2) [(9, 2 / 10), (7, 3 / 10), (2, 5 / 10)] = some 6 := by
+  refine ⟨((List.Perm.swap _ _ _).cons _).trans (List.Perm.swap _ _ _), by decide +kernel, by decide +kernel⟩
+-- unconverged branch: entry of the most likely sample, range of the last `ucs` samples
+example : colEstimate 2 (1 / 10) [1, 5, 3] [1, 0, 0] [7, 2, 9] = some ⟨2, 2, 9⟩ := by decide +kernel
 
 /-- **Minimised samples** (`Samples.minimise`, what the database keeps of a fit unless asked for all):
 they are the most likely and the most probable sample, nothing else. -/
